@@ -378,7 +378,7 @@ Proof.
         -- right. destruct (astepA_opened _ _ _ _ _ _ _ _ EA2) as [-> K].
            cbn [putA set_anchors anchors] in Ha'.
            pose proof (astepA_anchors _ _ _ _ _ _ _ EA2) as An.
-           rewrite An in Ha'. rewrite (nthN_updN_same _ _ _ _ _ Ha0) in Ha'. inversion Ha'; subst. exact K.
+           rewrite An in Ha'. rewrite (nthN_updN_same _ _ _ _ _ Ha0) in Ha'. inversion Ha'; first [subst a'; exact K | congruence].
         -- left. destruct (astepA_looked _ _ _ _ _ _ _ _ _ EA2) as [-> S0]. destruct W as [_ R].
            split; [reflexivity|]. rewrite pri_prim. rewrite S0. reflexivity.
       * cbn [pri tpc cm] in H. subst m. destruct W as [-> _].
